@@ -903,8 +903,13 @@ Section Render.
       destruct (s_json st); [subst v; discriminate|].
       inversion Hh; subst h. destruct v; simpl in Ht; try discriminate. subst t. exact Hs.
     - (* named integer *)
-      destruct (is_named_int sch n) eqn:Hn; [|discriminate].
       destruct (s_json st); [subst v; discriminate|].
+      destruct (is_named_int sch n) eqn:Hn.
+      2:{ destruct (tentry_of sch n) as [[[] ?]|] eqn:He; try discriminate. inversion Hh; subst h.
+          destruct v; simpl in Ht; try discriminate.
+          - subst t. simpl in Hw. rewrite Hn in Hw. discriminate.
+          - exact Hs.
+          - inversion Ht; subst tn. simpl in Hw. rewrite He in Hw. discriminate. }
       destruct v; simpl in Ht; try discriminate.
       + subst t. simpl in Hs.
         destruct (has_stringer sch n) eqn:Hst; inversion Hh; subst h.
